@@ -230,6 +230,35 @@ def showincludes(ck, ctx):
         r2 = ecfg.reach_avoid([tt for (x, lab) in se for tt in ecfg.edge_targets(x, lab)], avoid_blocks=inc_push)
         ok = ok and hdr not in r1 and hdr not in r2
     ck.ob("showincludes", "line-partition", ok, "every output line is either recorded as an include (prefix matched) or copied to the filtered output, never both or neither", span=eb.loc, fn=eb.nname)
+    # the recorded name is the rest of the line without leading blanks and without a trailing CR: include[start..end] with
+    # start = position of the first byte != ' ' (0 when there is none), end = len or len-1 under ends_with("\r")
+    from n2sa import bytetable as BT
+    pos = [(bb, t) for bb, t in eb.calls() if callee_of(t).endswith("::position")]
+    okspan = len(pos) == 1
+    det = ""
+    if okspan:
+        pbb, pt = pos[0]
+        clo = strip(ER.arg(pbb, 1))
+        cb = F.body(clo[2]) if clo[0] == "agg" and clo[1] == "closure" else None
+        tab = BT.predicate_table(cb, 2) if cb is not None else {}
+        okspan = tab.get(0, tab.get(False)) == [32] and not tab.get(None)
+        det = "predicate false exactly for %s" % tab.get(0, tab.get(False))
+        uo = [(bb, t) for bb, t in eb.calls() if callee_of(t).endswith("Option::unwrap_or")]
+        okspan = okspan and len(uo) == 1 and ER.arg(uo[0][0], 1) == ("const", 0) and any(c[3] == pbb for c in calls_in(ER.arg(uo[0][0], 0)))
+        # the slice taken is include[start..end]
+        idx = [(bb, t) for bb, t in eb.calls() if callee_of(t).endswith("Index<I>>::index") or callee_of(t).endswith("slice::index::Index>::index")]
+        rng_ok = False
+        for bb, t in eb.calls():
+            for i in range(len(t["args"])):
+                e = strip(ER.arg(bb, i))
+                if e[0] == "agg" and e[2] == "std::ops::Range":
+                    lo, hi = strip(e[4][0]), e[4][1]
+                    lo_ok = lo[0] == "call" and lo[1].endswith("unwrap_or")
+                    his = [strip(a) for a in alts(hi)]
+                    forms = sorted("len" if (h[0] == "call" and h[1].endswith("::len")) else "len-1" if (h[0] == "bin" and h[1] == "Sub" and h[3] == ("const", 1) and strip(h[2])[0] == "call" and strip(h[2])[1].endswith("::len")) else "?" for h in his)
+                    rng_ok = rng_ok or (lo_ok and forms == ["len", "len-1"])
+        okspan = okspan and rng_ok
+    ck.ob("showincludes", "include-span", okspan, "the include name is line-after-prefix[first non-blank .. len (minus a trailing CR)] (%s)" % det, span=eb.loc, fn=eb.nname)
     # returns (includes, filtered_output) in that order
     for bb, s in Q.ret_assignments(eb):
         if "rv" in s and s["rv"]["k"] == "agg" and s["rv"]["ak"] == "tuple":
@@ -261,6 +290,7 @@ def showincludes(ck, ctx):
 
 
 def run(ck, ctx):
+    C.loops_complete(ck, ctx, "replace-on-success", [("work::Work::record_finished", "graph::GraphFiles::id_from_canonical", "the reported dependency names")])
     single_writer(ck, ctx)
     replace_on_success(ck, ctx)
     missing_not_error(ck, ctx)
